@@ -462,6 +462,27 @@ func c20(r *core.Run) {
 				}
 				r.Check(reaches(w.Value(), w.Parent(), 0), "T2", core.FuncName(cl), "resource-write-error-is-the-closure's-result:"+w.Common().StaticCallee().Name(), p.InstrPos(w), "the error of the write reaches the closure's return", "the error returned by the write of the resource never reaches the update closure's return value: when the write is refused (oversized value, read-only database, invalid key) the closure returns nil, DB.Update commits nothing, and the handler reports the event as applied - it is published and the listeners run although storage is unchanged")
 			}
+			// only the delete handler removes the stored resource: an add / remove / change / create that
+			// deletes the entry (e.g. "the collection is empty now, fall back on the default") makes get and
+			// Value serve the default again instead of the folded value
+			if name != "applyDelete" {
+				for _, w := range wrs {
+					if !isBadgerCall(w, "Txn", "Delete") || len(w.Common().Args) < 2 {
+						continue
+					}
+					isIndexKey := false
+					for _, ps := range phiSources(w.Common().Args[1]) {
+						if kc, ok := core.Strip(ps.V).(*ssa.Call); ok {
+							if cal := kc.Common().StaticCallee(); cal != nil && cal.Pkg == cl.Pkg && cal.Signature.Recv() != nil && strings.HasSuffix(core.TypeName(cal.Signature.Recv().Type()), "Index") {
+								isIndexKey = true
+							}
+						}
+					}
+					if !isIndexKey {
+						r.Bad("T1", core.FuncName(cl), "stored-resource-deleted-only-by-the-delete-handler", p.InstrPos(w), name+" deletes the stored resource: the value served afterwards is the default (or nothing) instead of the events folded over it")
+					}
+				}
+			}
 			sig := guardSignature(p, cl)
 			sigs[mp.rel][name] = sig
 			for _, w := range want[name] {
